@@ -23,7 +23,7 @@ EvChecks(ev, t) ==
                \o SimChecks(ev.args.sim, ev.args.out) \o HarnessAmp(ev) \o SwapLedgerChecks(st, ev.args.j, ev.args.out, t)
           ELSE Untouched(st, t)
      [] ev.ev = "provide" ->
-          IF ev.res = "ok" THEN ProvideChecks(st, ev.args.d, ev.args.curve, ev.args.minted, t) \o HarnessAmp(ev)
+          IF ev.res = "ok" THEN ProvideChecks(st, ev.args.d, ev.args.curve, ev.args.minted, ev.args.slip # "none", ev.args.slip, t) \o HarnessAmp(ev)
           ELSE Untouched(st, t)
      [] ev.ev = "withdraw" ->
           IF ev.res = "ok" THEN WithdrawChecks(st, ev.args.amt, t) ELSE Untouched(st, t)
